@@ -466,7 +466,11 @@ def c03():
 
 
 def c04():
-    return Check('C04', 'exploration', olc_queries('C04'), assumptions=OLC_ASSUME + ['CBMC pointer checks: any dereference of a deallocated or out-of-bounds object on any explored schedule fails; '
+    u = U('olc_conc.cpp', 'nostats', max_node_type=2, yield_in='unodb::', extra_glue=[olc_wrappers()], extern_c=['verif_fixed_k'], cdefs=['IR2C_SPIN_BLOCKS'])
+    extra = [Query('v_view_two_exits', u, 'v_view_two_exits', unwind=20, checks='pointer', replay='none', trace=False, flags=['--slice-formula'],
+                   about='three QSBR registrations, call-level schedule: reader keeps a view; the remover exits with the request pending; a third thread that never quiesced exits; the view is re-read before the reader quiesces',
+                   bounds={'threads': 3, 'preemptions': 0})]
+    return Check('C04', 'exploration', olc_queries('C04') + extra, assumptions=OLC_ASSUME + ['CBMC pointer checks: any dereference of a deallocated or out-of-bounds object on any explored schedule fails; '
                  'the value view obtained by a preempted get() is re-read after the competing remove and before the reader quiesces; after both threads quiesced twice nothing retired may remain allocated (live block count)'],
                  explanation='Same schedules as C03 with the real QSBR code (two registrations): no access to reclaimed memory, views stay valid until the quiescent state.')
 
